@@ -54,6 +54,16 @@ TLate ==
     /\ More /\ Ev.k \in {"send", "eof"} /\ phase = "closed"
     /\ l' = l + 1 /\ UNCHANGED <<vars, pend>>
 
+\* Preamble rule: a property that does not judge startup, authentication and
+\* the parameter block sees them as one event (the projection emits it only
+\* when the first ReadyForQuery was reached).
+TPreamble ==
+    /\ More /\ Ev.k = "preamble" /\ phase = "startup" /\ inq = <<>> /\ pend = <<>>
+    /\ cparams' = KvMap(Ev.m.kvs)
+    /\ phase' = "ready" /\ mwi' = Len(cfg.mw) + 1 /\ emit' = <<>>
+    /\ l' = l + 1
+    /\ UNCHANGED <<cfg, ssl, inq, eof, faulted, stmts, portals, skip, hq, h, pend>>
+
 \* a silent server step
 TServer ==
     /\ pend = <<>>
@@ -102,7 +112,7 @@ TFaultedClose ==
     /\ l' = l + 1
     /\ UNCHANGED <<cfg, ssl, mwi, cparams, inq, eof, faulted, stmts, portals, skip, hq, h, pend>>
 
-TNext == TReset \/ TSend \/ TEof \/ TLate \/ TServer \/ TMatch \/ TIdle
+TNext == TReset \/ TPreamble \/ TSend \/ TEof \/ TLate \/ TServer \/ TMatch \/ TIdle
          \/ TFault \/ TFaultedCb \/ TFaultedClose
 
 TSpec == TInit /\ [][TNext]_tvars
